@@ -147,7 +147,8 @@ func (op *pipelineOp) exec(fm *Frame) Exception {
 			nextIn = &Port{
 				File: reader, Chan: ch,
 				// Store in input port for ease of retrieval later
-				sendStop: sendStop, sendError: sendError, readerGone: readerGone}
+				sendStop: sendStop, sendError: sendError, readerGone: readerGone,
+				pipeReadEnd: true}
 			verifTraceC18("link", &wg, i, ch, writer, reader)
 		}
 		f := func(form *formOp, fops []formOwnedPort, pexc *Exception) {
